@@ -944,3 +944,113 @@ package gtab
 //@     invariant len(matchPos) >= 1 && stackinv(ctx) && len(ctx.stack) == old(len(ctx.stack)) && (ref(matchPos) == ref(ctx.scratch) || fresh(matchPos)) && ctx.scratch == old(ctx.scratch) && rule != nil
 //@     invariant forall k int :: 0 <= k && k < len(ctx.stack) ==> !fresh(ctx.stack[k].InputPos)
 //@     decreases b - next
+
+// readSeqContext2: total reader; every rule pointer of the result is non-nil
+// (precondition of SeqContext2.apply).
+//@ func readSeqContext2(p *parser.Parser, subtablePos int64) (s Subtable, err error)   props: C02 C18 C07
+//@   requires parser.inv(p) && subtablePos >= 0 && subtablePos <= 2305843009213693952
+//@   ensures err == nil ==> parser.inv(p) && s != nil && is(s, *SeqContext2) && s.(*SeqContext2) != nil
+//@   ensures err == nil ==> forall i int :: forall j int :: 0 <= i && i < len(s.(*SeqContext2).Rules) && 0 <= j && j < len(s.(*SeqContext2).Rules[i]) ==> s.(*SeqContext2).Rules[i][j] != nil
+//@   ensures p.r == old(p.r) && (faults(p.r) > old(faults(p.r)) ==> err != nil)
+//@   modifies p.*, allelems(byte), rpos(p.r), faults(p.r)
+//@   loop 0
+//@     invariant parser.inv(p) && p.r == old(p.r) && faults(p.r) <= old(faults(p.r)) && res != nil && fresh(res) && fresh(res.Rules) && len(res.Rules) == len(classSeqRuleSetOffsets) && res.Cov != nil && fresh(res.Cov)
+//@     invariant forall i2 int :: 0 <= i2 && i2 < len(res.Rules) ==> isnil(res.Rules[i2]) || allocated(res.Rules[i2])
+//@     invariant forall i2 int :: forall j2 int :: 0 <= i2 && i2 < len(res.Rules) && 0 <= j2 && j2 < len(res.Rules[i2]) ==> res.Rules[i2][j2] != nil
+//@   loop 1
+//@     invariant parser.inv(p) && p.r == old(p.r) && faults(p.r) <= old(faults(p.r)) && res != nil && fresh(res) && fresh(res.Rules) && len(res.Rules) == len(classSeqRuleSetOffsets) && res.Cov != nil && fresh(res.Cov) && base >= 0 && base <= 2305843009213759487 && fresh(res.Rules[i]) && len(res.Rules[i]) == len(seqRuleOffsets)
+//@     invariant forall i2 int :: 0 <= i2 && i2 < len(res.Rules) && i2 != i ==> isnil(res.Rules[i2]) || (allocated(res.Rules[i2]) && ref(res.Rules[i2]) != ref(res.Rules[i]))
+//@     invariant forall i2 int :: forall j2 int :: 0 <= i2 && i2 < len(res.Rules) && i2 != i && 0 <= j2 && j2 < len(res.Rules[i2]) ==> res.Rules[i2][j2] != nil
+//@     invariant forall j2 int :: 0 <= j2 && j2 < iter ==> res.Rules[i][j2] != nil
+//@   loop 2
+//@     invariant parser.inv(p) && p.r == old(p.r) && faults(p.r) <= old(faults(p.r)) && res != nil && fresh(res) && fresh(res.Rules) && len(res.Rules) == len(classSeqRuleSetOffsets) && res.Cov != nil && fresh(res.Cov) && fresh(inputSequence) && len(inputSequence) == glyphCount - 1 && fresh(res.Rules[i]) && len(res.Rules[i]) == len(seqRuleOffsets) && 0 <= seqLookupCount && seqLookupCount <= 65535
+//@     invariant forall i2 int :: 0 <= i2 && i2 < len(res.Rules) && i2 != i ==> isnil(res.Rules[i2]) || (allocated(res.Rules[i2]) && ref(res.Rules[i2]) != ref(res.Rules[i]))
+//@     invariant forall i2 int :: forall j2 int :: 0 <= i2 && i2 < len(res.Rules) && i2 != i && 0 <= j2 && j2 < len(res.Rules[i2]) ==> res.Rules[i2][j2] != nil
+//@     invariant forall j2 int :: 0 <= j2 && j2 < j ==> res.Rules[i][j2] != nil
+
+// readSeqContext3: total reader; at least one input coverage set
+// (precondition of SeqContext3.apply).
+//@ func readSeqContext3(p *parser.Parser, subtablePos int64) (s Subtable, err error)   props: C02 C18 C07
+//@   requires parser.inv(p) && subtablePos >= 0 && subtablePos <= 2305843009213693952
+//@   ensures err == nil ==> parser.inv(p) && s != nil && is(s, *SeqContext3) && s.(*SeqContext3) != nil && len(s.(*SeqContext3).Input) >= 1
+//@   ensures p.r == old(p.r) && (faults(p.r) > old(faults(p.r)) ==> err != nil)
+//@   modifies p.*, allelems(byte), rpos(p.r), faults(p.r)
+//@   loop 0
+//@     invariant parser.inv(p) && p.r == old(p.r) && faults(p.r) <= old(faults(p.r)) && fresh(coverageOffsets) && len(coverageOffsets) == glyphCount && 1 <= glyphCount && glyphCount <= 65535 && 0 <= seqLookupCount && seqLookupCount <= 65535
+//@   loop 1
+//@     invariant parser.inv(p) && p.r == old(p.r) && faults(p.r) <= old(faults(p.r)) && fresh(cov) && len(cov) == glyphCount && 1 <= glyphCount
+
+// readChainedSeqContext1: total reader; every rule set is indexed by a
+// coverage index and every rule pointer is non-nil (what
+// ChainedSeqContext1.apply relies on).  The precondition of cov.EncodeLen
+// after Prune (the pruned table is still a valid coverage table: a counting
+// argument) is assumed.
+//@ func readChainedSeqContext1(p *parser.Parser, subtablePos int64) (s Subtable, err error)   props: C02 C18 C07
+//@   requires parser.inv(p) && subtablePos >= 0 && subtablePos <= 2305843009213693952
+//@   ensures err == nil ==> parser.inv(p) && s != nil && is(s, *ChainedSeqContext1) && s.(*ChainedSeqContext1) != nil
+//@   ensures err == nil ==> forall g uint16 :: has(s.(*ChainedSeqContext1).Cov, g) ==> 0 <= s.(*ChainedSeqContext1).Cov[g] && s.(*ChainedSeqContext1).Cov[g] < len(s.(*ChainedSeqContext1).Rules)
+//@   ensures err == nil ==> forall i int :: forall j int :: 0 <= i && i < len(s.(*ChainedSeqContext1).Rules) && 0 <= j && j < len(s.(*ChainedSeqContext1).Rules[i]) ==> s.(*ChainedSeqContext1).Rules[i][j] != nil
+//@   ensures p.r == old(p.r) && (faults(p.r) > old(faults(p.r)) ==> err != nil)
+//@   opt assume_pre=EncodeLen
+//@   modifies p.*, allelems(byte), rpos(p.r), faults(p.r)
+//@   let K = parser.inv(p) && p.r == old(p.r) && faults(p.r) <= old(faults(p.r)) && fresh(rules) && len(rules) == len(chainedSeqRuleSetOffsets) && cov != nil && fresh(cov)
+//@   let COV = forall g uint16 :: has(cov, g) ==> 0 <= cov[g] && cov[g] < len(rules)
+//@   loop 0
+//@     invariant K && COV
+//@     invariant forall i2 int :: 0 <= i2 && i2 < len(rules) ==> isnil(rules[i2]) || allocated(rules[i2])
+//@     invariant forall i2 int :: forall j2 int :: 0 <= i2 && i2 < len(rules) && 0 <= j2 && j2 < len(rules[i2]) ==> rules[i2][j2] != nil
+//@   loop 1
+//@     invariant K && COV && base >= 0 && base <= 2305843009213759487 && fresh(rules[i]) && len(rules[i]) == len(chainedSeqRuleOffsets)
+//@     invariant forall i2 int :: 0 <= i2 && i2 < len(rules) && i2 != i ==> isnil(rules[i2]) || (allocated(rules[i2]) && ref(rules[i2]) != ref(rules[i]))
+//@     invariant forall i2 int :: forall j2 int :: 0 <= i2 && i2 < len(rules) && i2 != i && 0 <= j2 && j2 < len(rules[i2]) ==> rules[i2][j2] != nil
+//@     invariant forall j2 int :: 0 <= j2 && j2 < iter ==> rules[i][j2] != nil
+//@   loop 2
+//@     invariant K && COV && fresh(inputSequence) && fresh(rules[i]) && len(rules[i]) == len(chainedSeqRuleOffsets) && (isnil(backtrackSequence) || fresh(backtrackSequence))
+//@     invariant forall i2 int :: 0 <= i2 && i2 < len(rules) && i2 != i ==> isnil(rules[i2]) || (allocated(rules[i2]) && ref(rules[i2]) != ref(rules[i]))
+//@     invariant forall i2 int :: forall j2 int :: 0 <= i2 && i2 < len(rules) && i2 != i && 0 <= j2 && j2 < len(rules[i2]) ==> rules[i2][j2] != nil
+//@     invariant forall j2 int :: 0 <= j2 && j2 < j ==> rules[i][j2] != nil
+
+// readChainedSeqContext2: total reader; every rule pointer is non-nil (what
+// ChainedSeqContext2.apply and the size check at the end rely on).
+//@ func readChainedSeqContext2(p *parser.Parser, subtablePos int64) (s Subtable, err error)   props: C02 C18 C07
+//@   requires parser.inv(p) && subtablePos >= 0 && subtablePos <= 2305843009213693952
+//@   ensures err == nil ==> parser.inv(p) && s != nil && is(s, *ChainedSeqContext2) && s.(*ChainedSeqContext2) != nil
+//@   ensures err == nil ==> forall i int :: forall j int :: 0 <= i && i < len(s.(*ChainedSeqContext2).Rules) && 0 <= j && j < len(s.(*ChainedSeqContext2).Rules[i]) ==> s.(*ChainedSeqContext2).Rules[i][j] != nil
+//@   ensures p.r == old(p.r) && (faults(p.r) > old(faults(p.r)) ==> err != nil)
+//@   modifies p.*, allelems(byte), rpos(p.r), faults(p.r)
+//@   let K = parser.inv(p) && p.r == old(p.r) && faults(p.r) <= old(faults(p.r)) && fresh(rules) && len(rules) == len(chainedClassSeqRuleSetOffsets) && cov != nil && fresh(cov)
+//@   loop 0
+//@     invariant K
+//@     invariant forall i2 int :: 0 <= i2 && i2 < len(rules) ==> isnil(rules[i2]) || allocated(rules[i2])
+//@     invariant forall i2 int :: forall j2 int :: 0 <= i2 && i2 < len(rules) && 0 <= j2 && j2 < len(rules[i2]) ==> rules[i2][j2] != nil
+//@   loop 1
+//@     invariant K && base >= 0 && base <= 2305843009213759487 && fresh(rules[i]) && len(rules[i]) == len(chainedClassSeqRuleOffsets)
+//@     invariant forall i2 int :: 0 <= i2 && i2 < len(rules) && i2 != i ==> isnil(rules[i2]) || (allocated(rules[i2]) && ref(rules[i2]) != ref(rules[i]))
+//@     invariant forall i2 int :: forall j2 int :: 0 <= i2 && i2 < len(rules) && i2 != i && 0 <= j2 && j2 < len(rules[i2]) ==> rules[i2][j2] != nil
+//@     invariant forall j2 int :: 0 <= j2 && j2 < iter ==> rules[i][j2] != nil
+//@   loop 2
+//@     invariant K && fresh(inputSequence) && fresh(rules[i]) && len(rules[i]) == len(chainedClassSeqRuleOffsets)
+//@     invariant forall i2 int :: 0 <= i2 && i2 < len(rules) && i2 != i ==> isnil(rules[i2]) || (allocated(rules[i2]) && ref(rules[i2]) != ref(rules[i]))
+//@     invariant forall i2 int :: forall j2 int :: 0 <= i2 && i2 < len(rules) && i2 != i && 0 <= j2 && j2 < len(rules[i2]) ==> rules[i2][j2] != nil
+//@     invariant forall j2 int :: 0 <= j2 && j2 < j ==> rules[i][j2] != nil
+//@   loop 3
+//@     invariant parser.inv(p) && p.r == old(p.r) && faults(p.r) <= old(faults(p.r)) && fresh(rules)
+//@     invariant forall i2 int :: forall j2 int :: 0 <= i2 && i2 < len(rules) && 0 <= j2 && j2 < len(rules[i2]) ==> rules[i2][j2] != nil
+//@   loop 4
+//@     invariant parser.inv(p) && p.r == old(p.r) && faults(p.r) <= old(faults(p.r)) && fresh(rules)
+//@     invariant forall j2 int :: 0 <= j2 && j2 < len(rr) ==> rr[j2] != nil
+//@     invariant forall i2 int :: forall j2 int :: 0 <= i2 && i2 < len(rules) && 0 <= j2 && j2 < len(rules[i2]) ==> rules[i2][j2] != nil
+
+// readChainedSeqContext3: total reader; at least one input coverage set
+// (precondition of ChainedSeqContext3.apply).
+//@ func readChainedSeqContext3(p *parser.Parser, subtablePos int64) (s Subtable, err error)   props: C02 C18 C07
+//@   requires parser.inv(p) && subtablePos >= 0 && subtablePos <= 2305843009213693952
+//@   ensures err == nil ==> parser.inv(p) && s != nil && is(s, *ChainedSeqContext3) && s.(*ChainedSeqContext3) != nil && len(s.(*ChainedSeqContext3).Input) >= 1
+//@   ensures p.r == old(p.r) && (faults(p.r) > old(faults(p.r)) ==> err != nil)
+//@   modifies p.*, allelems(byte), rpos(p.r), faults(p.r)
+//@   loop 0
+//@     invariant parser.inv(p) && p.r == old(p.r) && faults(p.r) <= old(faults(p.r)) && fresh(backtrackCov) && len(backtrackCov) == len(backtrackCoverageOffsets) && len(inputCoverageOffsets) >= 1
+//@   loop 1
+//@     invariant parser.inv(p) && p.r == old(p.r) && faults(p.r) <= old(faults(p.r)) && fresh(inputCov) && len(inputCov) == len(inputCoverageOffsets) && len(inputCoverageOffsets) >= 1
+//@   loop 2
+//@     invariant parser.inv(p) && p.r == old(p.r) && faults(p.r) <= old(faults(p.r)) && fresh(lookaheadCov) && len(lookaheadCov) == len(lookaheadCoverageOffsets) && len(inputCov) >= 1
